@@ -168,6 +168,11 @@ func (k *Kauri) onWaitTimerExpired(event WaitTimerExpiredEvent) {
 	}
 	if !k.aggSent {
 		k.sender.SendContributionToParent(k.currentView, k.aggContrib)
+		if _, hasParent := k.tree.Parent(); !hasParent {
+			// nobody received the root's partial aggregate: it keeps what it has (its own
+			// vote included) and goes on collecting until the quorum is complete.
+			return
+		}
 		k.reset()
 	}
 }
